@@ -1,6 +1,7 @@
 // vv-harness: runs the real crates from /repo on generated cases.
 // stdin: one case (val) per line; stdout: one observation (val) per line.
 mod fam_be;
+mod fam_dmn;
 mod fam_fe;
 mod fam_proxy;
 mod fam_sess;
@@ -23,6 +24,7 @@ fn run_case(c: &Val) -> Val {
         "valid" => fam_valid::run(args),
         "be" => fam_be::run(args),
         "fe" => fam_fe::run(args),
+        "dmn" => fam_dmn::run(args),
         "fsrv" => fam_proxy::run_fsrv(args),
         "proxy" => fam_proxy::run_proxy(args),
         "psess" => fam_proxy::run_psess(args),
